@@ -6,7 +6,9 @@ import (
 	"encoding/binary"
 	"fmt"
 	"io"
+	"net"
 	"os"
+	"strconv"
 	"strings"
 	"sync"
 	"sync/atomic"
@@ -167,6 +169,11 @@ type relayEdit struct {
 	kind  string // xor insert drop split merge
 	off   int    // byte offset inside the serialized frame (header included)
 	val   byte
+	// kind "rewrite": a SEMANTIC edit of a cleartext negotiation ad -- the value of attribute attr is
+	// replaced by newVal (ClassAd source text) and the frame re-framed to its new length; in direction
+	// dir only, or (both) in the first frame of BOTH directions at once
+	attr, newVal string
+	both         bool
 }
 
 type relayStats struct {
@@ -174,11 +181,91 @@ type relayStats struct {
 	applied bool     // the edit really changed the bytes in transit (its frame came and was long enough)
 	frames  [2][]int // serialized sizes of frames forwarded so far
 	order   []int    // direction of every frame in the order the relay took them
+	raw     [2][][]byte // the frames as the sender wrote them (header included)
+	nApplied int        // how many frames an edit changed (a rewrite of both ads: 2)
+}
+
+// messages: what the senders wrote, as messages in the order the relay took their first frame (for
+// readAuthLoop: which method exchanges ran on the wire and which one completed).
+func (st *relayStats) messages() []tapMsg {
+	st.mu.Lock()
+	defer st.mu.Unlock()
+	var out []tapMsg
+	open := [2]int{-1, -1}
+	idx := [2]int{}
+	for seq, d := range st.order {
+		raw := st.raw[d][idx[d]]
+		idx[d]++
+		f := refcodec.Frame{Flag: raw[0], Len: uint32(len(raw) - 5), Body: raw[5:]}
+		if open[d] < 0 {
+			out = append(out, tapMsg{dir: d, seq: seq})
+			open[d] = len(out) - 1
+		}
+		m := &out[open[d]]
+		m.frames = append(m.frames, f)
+		m.payload = append(m.payload, f.Body...)
+		if f.Flag != 0 {
+			open[d] = -1
+		}
+	}
+	return out
+}
+
+// adPrefix: bytes in front of the expression strings of the negotiation ad in the first message of a
+// direction: [command int64] (client only) [expression count int64].
+func adPrefix(dir int) int {
+	if dir == 0 {
+		return 16
+	}
+	return 8
+}
+
+// adAttrs lists `name -> value source text` of the ad carried by a first frame (body, no header).
+func adAttrs(body []byte, dir int) (names []string, vals map[string]string) {
+	vals = map[string]string{}
+	if len(body) < adPrefix(dir) {
+		return
+	}
+	for _, part := range bytes.Split(body[adPrefix(dir):], []byte{0}) {
+		s := string(part)
+		eq := strings.Index(s, " = ")
+		if eq <= 0 {
+			continue
+		}
+		names = append(names, s[:eq])
+		vals[s[:eq]] = s[eq+3:]
+	}
+	return
+}
+
+// rewriteAd replaces the value of attr in the ad of a first frame; returns the re-framed frame.
+func rewriteAd(raw []byte, dir int, attr, newVal string) ([]byte, bool) {
+	body := raw[5:]
+	pre := adPrefix(dir)
+	if len(body) < pre {
+		return nil, false
+	}
+	parts := bytes.Split(body[pre:], []byte{0})
+	hit := false
+	for i, part := range parts {
+		if strings.HasPrefix(string(part), attr+" = ") && string(part) != attr+" = "+newVal {
+			parts[i] = []byte(attr + " = " + newVal)
+			hit = true
+			break
+		}
+	}
+	if !hit {
+		return nil, false
+	}
+	nb := append(append([]byte{}, body[:pre]...), bytes.Join(parts, []byte{0})...)
+	f := refcodec.Frame{Flag: raw[0], Len: uint32(len(nb)), Body: nb}
+	return f.Bytes(), true
 }
 
 func (st *relayStats) markApplied() {
 	st.mu.Lock()
 	st.applied = true
+	st.nApplied++
 	st.mu.Unlock()
 }
 
@@ -200,10 +287,12 @@ func readFrame(src *bufpipe.Conn) (hdr, body []byte, ok bool) {
 
 func pump(src, dst *bufpipe.Conn, dir int, ed *relayEdit, st *relayStats, stop *bool) {
 	idx := 0
+	var cur []byte
 	note := func(n int) {
 		st.mu.Lock()
 		st.frames[dir] = append(st.frames[dir], n)
 		st.order = append(st.order, dir)
+		st.raw[dir] = append(st.raw[dir], append([]byte{}, cur...))
 		st.mu.Unlock()
 	}
 	for {
@@ -214,10 +303,16 @@ func pump(src, dst *bufpipe.Conn, dir int, ed *relayEdit, st *relayStats, stop *
 		}
 		n := uint32(len(body))
 		raw := append(hdr, body...)
+		cur = raw
 		note(len(raw))
 		out := raw
-		if ed != nil && ed.dir == dir && ed.frame == idx {
+		if ed != nil && (ed.dir == dir || (ed.both && ed.kind == "rewrite")) && ed.frame == idx {
 			switch ed.kind {
+			case "rewrite":
+				if nw, ok := rewriteAd(raw, dir, ed.attr, ed.newVal); ok {
+					out = nw
+					st.markApplied()
+				}
 			case "xor":
 				if ed.off < len(raw) {
 					out = append([]byte{}, raw...)
@@ -247,6 +342,7 @@ func pump(src, dst *bufpipe.Conn, dir int, ed *relayEdit, st *relayStats, stop *
 					dst.Close()
 					return
 				}
+				cur = append(append([]byte{}, hdr2...), body2...)
 				note(5 + len(body2))
 				idx++
 				m := refcodec.Frame{Flag: hdr2[0], Len: n + uint32(len(body2)), Body: append(append([]byte{}, body...), body2...)}
@@ -263,12 +359,119 @@ func pump(src, dst *bufpipe.Conn, dir int, ed *relayEdit, st *relayStats, stop *
 	}
 }
 
+
+// adAlternatives: plausible other values for attributes of the cleartext negotiation / resumption ads
+// (ClassAd source text). The honest value itself is skipped where it occurs.
+var adAlternatives = map[string][]string{
+	"RemoteVersion": {
+		`"$CondorVersion: 9.0.0 2021-04-14 BuildID: 536147 PackageID: 9.0.0-1 $"`, // older than every feature gate
+		`"$CondorVersion: 8.8.17 2022-03-15 BuildID: 578027 $"`,
+		`"$CondorVersion: 9.0.1 2021-05-17 BuildID: 540462 $"`,
+		`"$CondorVersion: 10.0.9 2023-09-28 BuildID: 678228 $"`,
+		`"$CondorVersion: 99.1.0 2031-01-01 BuildID: 999999 $"`, // newer
+		`"not a version"`, `""`,
+	},
+	"CryptoMethods":       {`"AES,3DES"`, `"3DES,AES"`, `"BLOWFISH,AES"`, `"3DES"`, `""`},
+	"CryptoMethodsList":   {`"AES,3DES"`, `"3DES,AES"`, `"BLOWFISH"`},
+	"AuthMethods":         {`"CLAIMTOBE,FS"`, `"FS,CLAIMTOBE"`, `"CLAIMTOBE,TOKEN"`, `"TOKEN,CLAIMTOBE"`, `"CLAIMTOBE"`, `"FS"`, `"TOKEN"`, `"NONE"`},
+	"AuthMethodsList":     {`"CLAIMTOBE,FS"`, `"FS,CLAIMTOBE"`, `"TOKEN,CLAIMTOBE"`, `"CLAIMTOBE"`},
+	"Encryption":          {`"REQUIRED"`, `"PREFERRED"`, `"OPTIONAL"`, `"NEVER"`, `"YES"`, `"NO"`},
+	"Authentication":      {`"REQUIRED"`, `"PREFERRED"`, `"OPTIONAL"`, `"NEVER"`, `"YES"`, `"NO"`},
+	"Integrity":           {`"REQUIRED"`, `"OPTIONAL"`, `"NEVER"`, `"YES"`, `"NO"`},
+	"Enact":               {`"YES"`, `"NO"`},
+	"NewSession":          {`"YES"`, `"NO"`},
+	"UseSession":          {`"YES"`, `"NO"`},
+	"ResumeResponse":      {"true", "false"},
+	"NegotiatedSession":   {"true", "false"},
+	"OutgoingNegotiation": {`"REQUIRED"`, `"PREFERRED"`, `"OPTIONAL"`, `"NEVER"`},
+	"ReturnCode":          {`"AUTHORIZED"`, `"DENIED"`, `"SID_NOT_FOUND"`, `""`},
+	"SessionDuration":     {"1", "86400", "0"},
+	"SessionLease":        {"1", "3600"},
+}
+
+// altValues: the catalogue's values for attr plus generic neighbours of the honest value (a list in
+// reverse order, a string with one more character or another first letter, a number one higher, a
+// boolean negated), the honest value excluded.
+func altValues(attr, honest string) []string {
+	out := append([]string{}, adAlternatives[attr]...)
+	if len(honest) >= 2 && honest[0] == '"' && honest[len(honest)-1] == '"' {
+		in := honest[1 : len(honest)-1]
+		if strings.Contains(in, ",") {
+			l := strings.Split(in, ",")
+			for i, j := 0, len(l)-1; i < j; i, j = i+1, j-1 {
+				l[i], l[j] = l[j], l[i]
+			}
+			out = append(out, `"`+strings.Join(l, ",")+`"`)
+		}
+		out = append(out, `"`+in+`x"`)
+		if in != "" {
+			b := []byte(in)
+			b[0] ^= 0x20
+			if b[0] >= 0x21 && b[0] < 0x7f && b[0] != '"' && b[0] != '\\' {
+				out = append(out, `"`+string(b)+`"`)
+			}
+		}
+	} else if honest == "true" || honest == "false" {
+		out = append(out, map[string]string{"true": "false", "false": "true"}[honest])
+	} else if v, err := strconv.ParseInt(honest, 10, 64); err == nil {
+		out = append(out, fmt.Sprint(v+1))
+	}
+	var uniq []string
+	seen := map[string]bool{honest: true}
+	for _, v := range out {
+		if !seen[v] {
+			seen[v] = true
+			uniq = append(uniq, v)
+		}
+	}
+	return uniq
+}
+
+// rewriteEdits: the semantic edits of the two ads seen in the honest run: every attribute x every
+// alternative value, in the direction that carries it -- and, for attributes both ads carry, in both
+// directions at once (the same value put into both).
+func rewriteEdits(c *Ctx, st *relayStats) (edits []relayEdit) {
+	st.mu.Lock()
+	defer st.mu.Unlock()
+	var vals [2]map[string]string
+	var names [2][]string
+	for d := 0; d < 2; d++ {
+		if len(st.raw[d]) == 0 {
+			return nil
+		}
+		names[d], vals[d] = adAttrs(st.raw[d][0][5:], d)
+	}
+	for d := 0; d < 2; d++ {
+		for _, a := range names[d] {
+			if a == "MyType" || a == "TargetType" {
+				continue
+			}
+			alts := altValues(a, vals[d][a])
+			if a == "ECDHPublicKey" && !c.Thorough() {
+				alts = alts[:1]
+			}
+			for _, v := range alts {
+				edits = append(edits, relayEdit{dir: d, frame: 0, kind: "rewrite", attr: a, newVal: v})
+				if _, inOther := vals[1-d][a]; inOther && d == 0 && v != vals[1][a] {
+					edits = append(edits, relayEdit{dir: 0, frame: 0, kind: "rewrite", attr: a, newVal: v, both: true})
+				}
+			}
+		}
+	}
+	return
+}
+
 var relayPanics atomic.Int64 // panics inside the library while a tampered handshake ran (a C13 matter; counted in the notes)
 
 type relayShape struct {
 	name    string
 	resumed bool
 	method  string // the method that must complete in the unmodified run ("" = none)
+	// two-method shapes: failFirst is the method whose exchange must RUN AND FAIL on the wire before
+	// `method` completes (an abandoned authentication attempt: its frames are cleartext transcript too);
+	// nat: the client reaches the server through an address translator (FS then fails)
+	failFirst string
+	nat       bool
 	cli     func(cache *security.SessionCache) *security.SecurityConfig
 	srv     func() *security.SecurityConfig
 }
@@ -285,6 +488,7 @@ type relayOut struct {
 	timedOut         bool // the run was ended by the harness's time bound, not by either endpoint
 	stalled          bool // every party was waiting for another (detected as an event): ended at once
 	hsOK, appOK      bool
+	enc              bool // either end's stream was AES-GCM keyed when its handshake returned success
 	resumed          bool // the client reports that it resumed a cached session
 	cMethod, sMethod string
 	st               *relayStats
@@ -349,6 +553,9 @@ func relayRunBound(sh relayShape, cache *security.SessionCache, ed *relayEdit, b
 		}
 	}()
 	cst, sst := stream.NewStream(c1), stream.NewStream(s1)
+	if sh.nat {
+		cst = stream.NewStream(&natConn{Conn: c1, remote: strAddr("192.0.2.77:9618")})
+	}
 	sst.SetPeerAddr("10.0.0.1:1111")
 	var sneg *security.SecurityNegotiation
 	var serr error
@@ -397,6 +604,7 @@ func relayRunBound(sh relayShape, cache *security.SessionCache, ed *relayEdit, b
 		if sneg != nil && sneg.Authentication {
 			o.sMethod = string(sneg.NegotiatedAuth)
 		}
+		o.enc = cst.IsEncrypted() || sst.IsEncrypted()
 		appPhase.Store(true)
 		e1 := cst.SendMessage(ctx, []byte("c2s-app"))
 		m1, e2 := sst.ReceiveCompleteMessage(ctx)
@@ -417,7 +625,16 @@ func relayRunBound(sh relayShape, cache *security.SessionCache, ed *relayEdit, b
 	return
 }
 
-func relayShapes(m *stallMaterial) []relayShape {
+// natConn: the client's end as seen from behind an address translator (it dialled `remote`).
+type natConn struct {
+	*bufpipe.Conn
+	remote net.Addr
+}
+
+func (n *natConn) RemoteAddr() net.Addr { return n.remote }
+
+func relayShapes(hm *hsMaterial) []relayShape {
+	m := hm.stallMaterial
 	claimSrv := func() *security.SecurityConfig {
 		sc := *srvConf(true)
 		sc.Authentication = security.SecurityOptional
@@ -455,11 +672,33 @@ func relayShapes(m *stallMaterial) []relayShape {
 			sc.SessionCache = nil
 			return sc
 		}},
+		// the FIRST common method runs on the wire and fails, both ends abandon it and a later one
+		// completes: the frames of the abandoned attempt are cleartext transcript like any other
+		{name: "fs-fails-claim", method: "CLAIMTOBE", failFirst: "FS", nat: true, cli: func(cache *security.SessionCache) *security.SecurityConfig {
+			cc := stallConf([]string{"FS", "CLAIMTOBE"}, "REQUIRED", "OPTIONAL", aes)
+			cc.SessionCache, cc.PeerName = cache, "srvA"
+			return cc
+		}, srv: func() *security.SecurityConfig {
+			sc := stallConf([]string{"FS", "CLAIMTOBE"}, "REQUIRED", "OPTIONAL", aes)
+			sc.SessionCache = nil
+			return sc
+		}},
+		{name: "token-bad-claim", method: "CLAIMTOBE", failFirst: "TOKEN", cli: func(cache *security.SessionCache) *security.SecurityConfig {
+			cc := stallConf([]string{"TOKEN", "CLAIMTOBE"}, "REQUIRED", "OPTIONAL", aes)
+			cc.SessionCache, cc.PeerName = cache, "srvA"
+			hm.cliToken(hm.badTokenFile)(cc)
+			return cc
+		}, srv: func() *security.SecurityConfig {
+			sc := stallConf([]string{"TOKEN", "CLAIMTOBE"}, "REQUIRED", "OPTIONAL", aes)
+			sc.SessionCache = nil
+			hm.srvToken()(sc)
+			return sc
+		}},
 	}
 }
 
 func runRelay(c *Ctx) error {
-	c.Res.Rule = "part 1 (stream level, compared with the model): 1-4 cleartext frames in either direction each edited in transit (payload bit flip, end flag flipped or rewritten to another accepted value 2..10, empty frame inserted before/after, frame dropped, split in two, two adjacent frames merged into one, byte appended), then keys installed and one protected message each way; part 2 (whole handshakes through a byte-editing relay, property oracle): shapes {no authentication, CLAIMTOBE, TOKEN, FS, resumed session (checked to have resumed)} x every frame of the handshake in each direction x (every byte offset x xor 0x01/0x80 in thorough, every 3rd-6th offset in quick; the end-flag byte also rewritten to 2, 3 and 10) plus empty-frame insertion, frame removal, frame splitting and merging of every pair of adjacent cleartext frames of a direction; edits that could not be run are counted and bounded; distinct by (shape, edit); non-trivial = the edit lands in a frame exchanged before the application data"
+	c.Res.Rule = "part 1 (stream level, compared with the model): 1-4 cleartext frames in either direction each edited in transit (payload bit flip, end flag flipped or rewritten to another accepted value 2..10, empty frame inserted before/after, frame dropped, split in two, two adjacent frames merged into one, byte appended), then keys installed and one protected message each way; part 2 (whole handshakes through a byte-editing relay, property oracle): shapes {no authentication, CLAIMTOBE, TOKEN, FS, resumed session (checked to have resumed), FS-fails-then-CLAIMTOBE, bad-TOKEN-then-CLAIMTOBE (checked on the wire)} x every frame of the handshake in each direction x (every byte offset x xor 0x01/0x80 in thorough, every 3rd-6th offset in quick; the end-flag byte also rewritten to 2, 3 and 10) plus empty-frame insertion, frame removal, frame splitting and merging of every pair of adjacent cleartext frames of a direction; two further shapes in which the FIRST method runs and fails on the wire (FS through an address translator, TOKEN signed by a foreign key) before CLAIMTOBE completes, every frame of the abandoned exchange edited too; SEMANTIC edits of the two cleartext ads: every attribute present x a catalogue of plausible other values (RemoteVersion older / newer / unparsable, method and cipher lists extended / reordered, levels and YES/NO swapped, booleans, numbers, generic neighbours of the honest value), the ad re-framed, in one direction and -- for attributes both ads carry -- in both at once; edits that could not be run are counted and bounded; distinct by (shape, edit); non-trivial = the edit lands in a frame exchanged before the application data"
 	defer quietStdout()()
 	var cases []Case
 	n := c.Pick(600, 8000)
@@ -475,10 +714,11 @@ func runRelay(c *Ctx) error {
 		return err
 	}
 	defer os.RemoveAll(work)
-	mat, err := stallPrepare(work)
+	mat, matCleanup, err := hsPrepare(c)
 	if err != nil {
 		return err
 	}
+	defer matCleanup()
 	defer func() {
 		// only the directories named on this engine's own connections (fs_own_dirs.go), never a glob of /tmp
 		if n := ownFS.cleanup(); n > 0 {
@@ -540,10 +780,18 @@ func runRelay(c *Ctx) error {
 			continue
 		}
 		st := o.st
+		if sh.failFirst != "" {
+			wa := readAuthLoop(st.messages(), nil)
+			if !(wa.parsed && len(wa.ranAny) >= 2 && wa.ranAny[0] == sh.failFirst && len(wa.ranOK) == 1 && wa.ranOK[0] == sh.method) {
+				obligation(sh.name, fmt.Sprintf("the shape meant to run %s to failure and then %s to completion on the wire shows: begun %v completed %v (parsed=%v)", sh.failFirst, sh.method, wa.ranAny, wa.ranOK, wa.parsed))
+				continue
+			}
+			c.Count("shape:" + sh.name + ":first-method-failed-on-the-wire")
+		}
 		// frames seen during the honest run, minus the two application frames per direction's tail
 		var edits []relayEdit
 		step := c.Pick(3, 1)
-		if !c.Thorough() && (sh.name == "token" || sh.name == "fs") {
+		if !c.Thorough() && (sh.name == "token" || sh.name == "fs" || sh.failFirst != "") {
 			step = 5
 		}
 		for dir := 0; dir < 2; dir++ {
@@ -575,9 +823,11 @@ func runRelay(c *Ctx) error {
 				c.Count("shape:" + sh.name + ":adjacent-pair")
 			}
 		}
+		// semantic edits of the cleartext ads (first frame of each direction)
+		edits = append(edits, rewriteEdits(c, st)...)
 		// run the edits: fresh handshakes are independent of each other (own cache, own pipes) and run
 		// eight at a time; resumed ones share the process-wide cache and run one by one
-		type editRes struct{ ran, hs, app, applied, timedOut, stalled bool }
+		type editRes struct{ ran, hs, app, applied, timedOut, stalled, enc bool }
 		results := make([]editRes, len(edits))
 		if sh.resumed {
 			for i := range edits {
@@ -586,7 +836,7 @@ func runRelay(c *Ctx) error {
 				}
 				e := edits[i]
 				ro := relayRun(sh, cache, &e)
-				results[i] = editRes{true, ro.hsOK, ro.appOK, ro.applied(), ro.timedOut, ro.stalled}
+				results[i] = editRes{true, ro.hsOK, ro.appOK, ro.applied(), ro.timedOut, ro.stalled, ro.enc}
 			}
 		} else {
 			sem := make(chan struct{}, 8)
@@ -599,7 +849,7 @@ func runRelay(c *Ctx) error {
 					defer func() { <-sem }()
 					e := edits[i]
 					ro := relayRun(sh, security.NewSessionCache(), &e)
-					results[i] = editRes{true, ro.hsOK, ro.appOK, ro.applied(), ro.timedOut, ro.stalled}
+					results[i] = editRes{true, ro.hsOK, ro.appOK, ro.applied(), ro.timedOut, ro.stalled, ro.enc}
 				}(i)
 			}
 			wg.Wait()
@@ -619,7 +869,7 @@ func runRelay(c *Ctx) error {
 				rc = security.NewSessionCache()
 			}
 			ro := relayRunBound(sh, rc, &e, relayRetryTimeout)
-			results[i] = editRes{true, ro.hsOK, ro.appOK, ro.applied(), ro.timedOut, ro.stalled}
+			results[i] = editRes{true, ro.hsOK, ro.appOK, ro.applied(), ro.timedOut, ro.stalled, ro.enc}
 		}
 		for i, ed := range edits {
 			planned++
@@ -648,6 +898,24 @@ func runRelay(c *Ctx) error {
 			}
 			c.Distinct(fmt.Sprintf("%s|%+v", sh.name, ed), true)
 			c.Count("shape:" + sh.name + ":" + ed.kind)
+			if ed.kind == "rewrite" {
+				dirs := fmt.Sprintf("dir%d", ed.dir)
+				if ed.both {
+					dirs = "both"
+				}
+				c.Count("rewrite:" + dirs)
+				c.Count("rewrite-attr:" + ed.attr)
+				switch {
+				case hs && app && results[i].enc:
+					c.Violate(Violation{Property: "C04", Key: fmt.Sprintf("C04:handshake:%s:rewrite:%s:%s", sh.name, ed.attr, dirs), What: "the value of an attribute of a cleartext negotiation ad was rewritten in transit (the ad re-framed), the handshake ended with encryption on, and application data was accepted afterwards",
+						Ops: []string{"shape " + sh.name, fmt.Sprintf("rewrite %s := %s in %s", ed.attr, ed.newVal, dirs)}, Expected: "handshake fails or the first protected frame is rejected", Observed: "application message delivered over the keyed stream"})
+				case hs && app:
+					// the rewrite talked both ends out of a key: no protected frame exists; whether that may
+					// happen is a matter of the policies (C03/C10), not of the transcript binding
+					c.Count("rewrite-ended-in-plaintext:" + ed.attr)
+				}
+				continue
+			}
 			if hs && app {
 				c.Violate(Violation{Property: "C04", Key: fmt.Sprintf("C04:handshake:%s:%s:dir%d", sh.name, ed.kind, ed.dir), What: "a byte of the handshake transcript was modified / a frame inserted, removed, split or merged in transit, yet application data was accepted afterwards",
 					Ops: []string{"shape " + sh.name, fmt.Sprintf("edit %+v", ed)}, Expected: "handshake fails or the first protected frame is rejected", Observed: "application message delivered"})
